@@ -150,6 +150,18 @@ def check_bytes(case):
         msg = msg + flag.to_bytes(4, "little")
     z = _digest(msg, flag, preimage)
     rs = ec.ecdsa_sign(d, z, k)
+    tot = case.get("der_total")
+    if tot and rs is not None and not edge:
+        # a valid signature whose strict-DER encoding has a chosen total length (63..65 bytes: around the 64 bytes of
+        # the fixed-width r || s form): s is picked with the byte length that gives it, the key is solved from s
+        r0 = rs[0]
+        lr = (r0.bit_length() + 8) // 8
+        ls = tot - 6 - lr
+        if 1 <= ls <= 31:
+            s0 = int.from_bytes(bytes([0x5A]) * ls, "big")
+            d0 = (s0 * k - z) * pow(r0, -1, N) % N
+            if d0 and ec.ecdsa_verify(ec.pub(d0), z, r0, s0):
+                d, rs = d0, (r0, s0)
     f = Fails()
     if rs is None:
         return ["degenerate-nonce"], f
@@ -246,6 +258,8 @@ def check_bytes(case):
     want = pt is not None and vals is not None and ec.ecdsa_verify(pt, z2, vals[0], vals[1])
     cls = ["mut:" + label, "nt:expect-accept" if (want and kind != "none") else ("expect-accept" if want else "nt:expect-reject")]
     cls.append("preimage" if preimage else "plain")
+    if tot and rs is not None and len(der.encode(*rs)) == tot:
+        cls.append(f"nt:der-length-{tot}")
     if edge:
         cls.append("nt:key-bytes-with-whitespace-or-nul-at-an-end")
     if flag not in FLAGS:
@@ -388,6 +402,7 @@ def bytes_cases(draw):
         "mut": m,
         "prime": draw(st.booleans()) or kind == "pk-prefix",
         "edge": draw(st.sampled_from([False, False, False, True])),
+        "der_total": draw(st.sampled_from([None, None, None, None, 63, 64, 64, 65])),
     }
 
 
@@ -427,7 +442,7 @@ def targets(tier):
                required=["mut:s->n-s", "mut:z+n", "mut:u1G+u2P=infinity", "mut:other-key", "mut:aliased-key", "nt:expect-accept", "nt:expect-reject", "mut:flip-px"]),
         Target("sigverify-bytes", check_bytes, strategy=lambda tier: bytes_cases(), budget={"quick": 800, "thorough": 10000},
                required=["mut:der-struct", "mut:der-value", "mut:pk-hybrid", "mut:pk-prefix", "mut:pk-len-otherform", "mut:flag", "mut:msg", "mut:u1G+u2P=infinity", "mut:forged-under-x0-key", "nt:expect-accept", "nt:expect-reject", "nt:nonstandard-sighash-byte-00",
-                         "nt:key-bytes-with-whitespace-or-nul-at-an-end", "mut:pk-len-ext-ws"]),
+                         "nt:key-bytes-with-whitespace-or-nul-at-an-end", "mut:pk-len-ext-ws", "nt:der-length-64", "nt:der-length-63"]),
         Target("low-s", check_lows, strategy=lambda tier: lows_cases(), budget={"quick": 3000, "thorough": 40000},
                required=["nt:complement-short", "nt:complement-short-topbit", "nt:s-at-half", "nt:verified"]),
         Target("small-curve", check_small, enumerate_=enum_small, exhaustive=True),
